@@ -84,6 +84,17 @@ def rebind_rules(prog, rep, wrap_fn):
             if e[0] == "setattr" and e[2] == "cell_contents" and T.contains(e[1], lambda x: x[0] == "attr" and x[2] == "__closure__") and not T.contains(e[1], lambda x: T.is_call_to(x, "types.CellType")):
                 written.append(T.show(e[1])[:50])
     rep.check(not written, rule, g.qualname, g.loc, "the closure cells of the original's functions are left as they are (the copy gets cells of its own)", f"the cell of the original function is re-pointed in place ({written[:1]}): the function object is shared with the original class, whose generated __setattr__ / __delattr__ and zero-argument super() now refer to the slotted class -- and a second decoration of the same original finds no cell holding it", detail="rebind-leaves-original")
+    # (a') "nothing to re-bind" is a statement about every cell: the member is handed back unchanged only where all of its
+    # cells (parts) are the ones it came with -- one unchanged cell (`__class__` next to a captured helper) proves nothing
+    some = []
+    for pth, r in P.returns(gps):
+        if r == member:
+            for g_, pol in pth.guards():
+                if pol and T.contains(g_, lambda x: T.is_call_to(x, "builtins.any") and T.contains(x, lambda y: y[0] == "cmp" and y[1] == "is")):
+                    some.append(T.show(g_)[:60])
+                if (not pol) and T.contains(g_, lambda x: T.is_call_to(x, "builtins.all") and T.contains(x, lambda y: y[0] == "cmp" and y[1] == "is")):
+                    some.append("not " + T.show(g_)[:60])
+    rep.check(not some, rule, g.qualname, g.loc, "a member is returned as it is only where every cell (part) is unchanged", f"the member is handed back unchanged as soon as *some* cell is the original one ({some[:1]}): a method that holds the class in one cell and anything else in another keeps referring to the class it was copied from", detail="rebind-unchanged-all")
     # (b) the copy carries everything the original function had
     need = {"__code__", "__globals__", "__defaults__", "__kwdefaults__", "__dict__", "__annotations__", "__module__", "__qualname__", "__doc__"}
     wrapper_set = {"__module__", "__qualname__", "__doc__", "__annotations__", "__dict__"}
@@ -283,6 +294,15 @@ def run(prog: Program, rep: Report, tier: str):
         if unfiltered or grown:
             ok_slots = False
     rep.check(ok_slots, "R19.2", q, f.loc, "__slots__ are the dataclass field names not already slotted by a base", "__slots__ are not `fields(cls)` names minus the union of the __slots__ of *every* ancestor (cls.mro()): a slot re-declared from a grandparent is duplicated, or type() raises", detail="slots")
+    # a class body without annotations (every field inherited) has no `__annotations__` entry in its namespace at all
+    strict_ann = []
+    for pth in rets:
+        guarded = any(T.contains(g, lambda y: y[0] == "cmp" and y[1] in ("in", "notin") and y[2] == ("const", "__annotations__")) for g, _po in pth.guards())
+        for tm in pth.all_terms():
+            for x in T.walk(tm):
+                if x[0] == "sub" and x[2] == ("const", "__annotations__") and not guarded:
+                    strict_ann.append(T.show(x)[:50])
+    rep.check(not strict_ann, "R19.2", q, f.loc, "the class's own annotations are read with a default", f"the namespace of the class is subscripted with '__annotations__' ({sorted(set(strict_ann))[:1]}): a dataclass whose body declares no field of its own (`@dataclass class Child(Base): pass`) has no such entry -- slotted(Child) raises KeyError", detail="own-annotations-tolerant")
     rep.check(own_only and bool(slots), "R19.2", q, f.loc, "only the fields the class itself declares get a slot", "every dataclass field gets a slot unless a base *slots* it: for a child of a plain (unslotted) dataclass the inherited fields are slotted again -- slotted(Child).__slots__ == ('a', 'tag', 'b') instead of ('b',) -- and the new descriptors shadow the base's class attributes: a base field(default='base', init=False) makes repr(Slotted()) raise AttributeError", detail="slots-declared-here")
     rep.check(own_excluded and bool(slots), "R19.2", q, f.loc, "only proper ancestors count as providers of inherited slots (mro()[1:])", "the class's own __slots__ are counted as inherited (the whole mro(), the class included, is searched): for a dataclass that is already slotted -- dataclass(slots=True), or slotted() applied twice -- no field gets a slot and no instance can be built (AttributeError: object has no attribute 'x')", detail="slots-own")
     # names come from f.name of dataclasses.fields(cls)
@@ -322,6 +342,10 @@ def run(prog: Program, rep: Report, tier: str):
         want = flag == "weakref"
         if flag in defaults:
             rep.check(isinstance(dflt, ast.Constant) and dflt.value is want, "R19.2", outer.qualname, outer.loc, f"`{flag}` defaults to {want}", f"`{flag}` defaults to {ast.unparse(dflt) if dflt is not None else 'nothing'}: a plain @slotted " + ("gives every instance a __dict__ nobody requested" if flag == "dict" else "makes instances that cannot be weakly referenced, which instances of the original dataclass can"), detail=f"{key}-default")
+        # one base that provides the member is enough for type() to refuse a second one: the question over the bases is
+        # existential (`any`), a universal one (`all`) asks again whenever a slotted mixin stands beside an unslotted base
+        universal = any(T.contains(g, lambda s: T.is_call_to(s, "builtins.all") and T.contains(s, lambda y: y[0] == "attr" and y[2] == layout)) for pth in rets for g, _po in pth.guards())
+        rep.check(not universal, "R19.2", q, f.loc, f"whether a base provides '{key}' is asked of any base", f"'{key}' is withheld only when *all* bases provide it: `class C(SlottedMixin, PlainBase)` has one base that does, the slot is requested again and type() raises TypeError ('{key} slot disallowed: we already got one')", detail=f"{key}-any-base")
         rep.check(not sign_tested, "R19.2", q, f.loc, f"{layout} of a base is tested for being non-zero", f"{layout} of a base is compared by order: the offset is negative for an ordinary heap class (managed dict: -1 on CPython >= 3.11; a negative offset counts from the end of a variable-sized object), so a base that does provide '{key}' is not recognised and type() raises TypeError ('{key} slot disallowed: we already got one')", detail=f"{key}-offset-sign")
     # field defaults removed from class dict
     popped = False
@@ -480,6 +504,24 @@ def run(prog: Program, rep: Report, tier: str):
         setters = [c for hp in hps for c in hp.calls() if T.refname(c[1]) in ("builtins.object.__setattr__", "builtins.setattr") or (c[1][0] == "attr" and c[1][2] == "__setattr__")]
         good = bool(setters) and all(T.refname(c[1]) == "builtins.object.__setattr__" and c[2][:1] == (("param", hf.params[0]),) for c in setters)
         rep.check(good, "R19.4", hf.qualname, hf.loc, "the pickle hook restores slots with object.__setattr__ (frozen classes reject every other setter)", "the pickle hook does not restore slots through object.__setattr__(self, …): for a frozen subclass the inherited frozen __setattr__ raises on copy / pickle", detail="hook-setter")
+        # each restored attribute is a (name, value) entry of a half of the state: the two arguments of the setter are the key
+        # and the value of one and the same `.items()` iteration (over `.values()` the unpacking fails or mis-assigns)
+        entry_ok = True
+        for c in setters:
+            if T.refname(c[1]) != "builtins.object.__setattr__" or len(c[2]) != 3:
+                continue
+            k_, v_ = c[2][1], c[2][2]
+            def _it(x):
+                for y in T.walk(x):
+                    if y[0] == "call" and y[1][0] == "attr" and y[1][2] in ("items", "values", "keys") and not y[2]:
+                        return y[1][2], y[1][1]
+                return None, None
+            (mk, sk), (mv, sv) = _it(k_), _it(v_)
+            if mk is not None or mv is not None:
+                if not (mk == "items" and mv == "items" and sk == sv and k_ != v_):
+                    entry_ok = False
+        if setters:
+            rep.check(entry_ok, "R19.4", hf.qualname, hf.loc, "every restored attribute is the (name, value) entry of one `.items()` iteration", "the pickle hook does not take the name and the value it restores from the entries (`.items()`) of the same half of the state: iterating `.values()` / `.keys()` unpacks the stored values themselves -- copy.copy / pickle.loads of a frozen slotted instance raise (or assign the wrong attributes)", detail="hook-state-entries")
         # the default state of an instance with slots is the pair (instance __dict__ or None, {slot: value}): both halves are
         # restored (a slotted class may still carry a __dict__ -- requested with dict=True or inherited from an unslotted base)
         st = ("param", hf.params[1]) if len(hf.params) > 1 else None
